@@ -361,6 +361,9 @@ func (st *State) enter(b *ssa.BasicBlock, pred *ssa.BasicBlock) {
 		kind := "inv-init"
 		if isBack {
 			kind = "inv-keep"
+			if lkey == "" {
+				vc.runGhost(st, "at backedge", fmt.Sprintf("loop%d", li.ord), 0)
+			}
 		}
 		for i, c := range invs {
 			e, err := c.expr()
@@ -368,12 +371,13 @@ func (st *State) enter(b *ssa.BasicBlock, pred *ssa.BasicBlock) {
 				fail("%v", err)
 			}
 			ec := st.evalCtx()
-			for gi, g := range splitConj(e) {
+			conj := ec.evalConjuncts(e)
+			for gi, g := range conj {
 				lbl := clauseLabel(c, i)
-				if gi > 0 || len(splitConj(e)) > 1 {
+				if len(conj) > 1 {
 					lbl = fmt.Sprintf("%s.%d", lbl, gi+1)
 				}
-				st.oblige(kind, lname+"."+lbl, ec.evalBool(g), g.String())
+				st.oblige(kind, lname+"."+lbl, g.t, g.text)
 			}
 		}
 		if st.fr.parent == nil || true {
@@ -672,13 +676,13 @@ func (st *State) doReturn(in *ssa.Return) {
 			fail("%v", err)
 		}
 		ec := &EvalCtx{st: st, names: names, pkg: vc.fn.Pkg.Pkg, tparams: vc.tparamEnv(vc.fn)}
-		conj := splitConj(e)
+		conj := ec.evalConjuncts(e)
 		for gi, g := range conj {
 			lbl := clauseLabel(c, i)
 			if len(conj) > 1 {
 				lbl = fmt.Sprintf("%s.%d", lbl, gi+1)
 			}
-			st.oblige("post", lbl, ec.evalBool(g), g.String())
+			st.oblige("post", lbl, g.t, g.text)
 		}
 	}
 	st.frameCheck(names)
@@ -908,7 +912,9 @@ func (st *State) step(in ssa.Instruction) {
 		sz := st.value(x.Size).(TV).T
 		st.oblige("bounds", fmt.Sprintf("makechan#%d", vc.ordinals[in]), tLe(tInt(0), sz), "make(chan): size >= 0")
 		r := st.allocRef("chan")
+		st.setChanElem(x.Type())
 		st.chanInit(r, sz)
+		st.assumeRange(r, x.Type())
 		st.bind(x, TV{r, x.Type()})
 	case *ssa.MakeClosure:
 		fv := FuncV{Fn: x.Fn.(*ssa.Function), Typ: x.Type()}
@@ -1402,7 +1408,9 @@ func (st *State) runDefers(b *ssa.BasicBlock, idx int) bool {
 		if st.inlineDeferred(d, b, idx) {
 			return true
 		}
-		st.callCommon(d.call, d.fnv, d.args, d.instr, true)
+		st.vc.runGhost(st, "before call", calleeName(d.call), st.vc.ordinals[d.instr])
+		res := st.callCommon(d.call, d.fnv, d.args, d.instr, true)
+		st.vc.runGhost(st, "after call", calleeName(d.call), st.vc.ordinals[d.instr], res)
 	}
 	return false
 }
